@@ -5,7 +5,7 @@ C04 - Notifications are executed exactly once and never answered.
 import json
 import time
 
-from vf import gen, oracle, reqgen, poolcheck
+from vf import gen, oracle, reqgen, poolcheck, steady
 from vf import dispatchmon as dm
 from vf.peers import LoopbackTransport
 
@@ -90,16 +90,17 @@ class PooledFixture(object):
         """Final accounting: everything the reference expected, nothing else, ran - as multisets."""
         fx = self.fx
         want = sorted(dm.inv_repr(self.expected_total))
-        deadline = time.monotonic() + 30
+        deadline = time.monotonic() + 120
         last = -1
         last_change = time.monotonic()
+        still = steady.Stillness(2.0, 300, "vfpoolN")
         while time.monotonic() < deadline:
             n = fx.log.mark()
             if n >= len(want) and n == last and time.monotonic() - last_change > 0.03:
                 break
             if n != last:
                 last, last_change = n, time.monotonic()
-            elif time.monotonic() - last_change > 2.0:
+            if still.look(n) is not None:
                 break
             time.sleep(0.002)
         got = sorted(dm.inv_repr(fx.log.since(0)))
@@ -120,15 +121,12 @@ class PooledFixture(object):
 def drain(fx, mark0, want):
     """Bounded-progress wait for `want` probe invocations since mark0 (frozen = nothing moved for 2 s)."""
     t0 = time.monotonic()
-    last, last_change = -1, t0
+    still = steady.Stillness(2.0, 500, "vfpoolN")
     while True:
         n = fx.log.mark() - mark0
         if n >= want:
             return
-        now = time.monotonic()
-        if n != last:
-            last, last_change = n, now
-        elif now - last_change > 2.0:
+        if still.look(n) is not None or time.monotonic() - t0 > 120:
             return
         time.sleep(0.0005)
 
